@@ -90,13 +90,16 @@ type fakeReader struct {
 	calls int
 	frag  bool  // arbitrary (symbolic) fragmentation
 	chunk int   // >0: at most chunk bytes per Read (concrete fragmentation)
+	posAtFail int // stream offset reached when the failing read returned (bytes before it did arrive)
+	failWithData bool // the injected failure is returned together with the bytes of that read (legal for an io.Reader)
 	eofWithData bool // the final bytes are returned together with io.EOF (legal for an io.Reader; QUIC streams do this on FIN)
 }
 
 func (f *fakeReader) Read(p []byte) (int, error) {
 	k := f.calls
 	f.calls++
-	if f.fail >= 0 && k == f.fail {
+	if f.fail >= 0 && k == f.fail && !(f.failWithData && len(p) > 0 && f.pos < len(f.data)) {
+		f.posAtFail = f.pos
 		return 0, f.err
 	}
 	if len(p) == 0 {
@@ -118,6 +121,10 @@ func (f *fakeReader) Read(p []byte) (int, error) {
 	}
 	copy(p, f.data[f.pos:f.pos+n])
 	f.pos += n
+	if f.fail >= 0 && k == f.fail {
+		f.posAtFail = f.pos
+		return n, f.err // failWithData: these bytes arrived, and the stream failed
+	}
 	if f.eofWithData && f.pos >= len(f.data) {
 		return n, io.EOF
 	}
